@@ -4,6 +4,7 @@ import (
 	"encoding/json"
 	"flag"
 	"fmt"
+	"go/constant"
 	"go/types"
 	"os"
 	"path/filepath"
@@ -141,6 +142,9 @@ func cmdCheck(args []string) {
 	for _, st := range ps.Static {
 		if strings.HasPrefix(st, "immutable:") {
 			results = append(results, verifyImmutable(P, strings.TrimPrefix(st, "immutable:")))
+		}
+		if strings.HasPrefix(st, "pinned:") {
+			results = append(results, verifyPinned(P, strings.TrimPrefix(st, "pinned:")))
 		}
 	}
 
@@ -507,6 +511,56 @@ func verifyImmutable(P *Program, path string) *FuncResult {
 	}
 	if len(res.Obls) == 0 {
 		res.Obls = append(res.Obls, &Obligation{Name: "immutable/" + path + "/no-store-anywhere", Kind: "immutable", Status: "unsat", Solver: "syntactic"})
+	}
+	return res
+}
+
+// verifyPinned: every call of the callee anywhere in the package's production code (package
+// initialisers included) passes the pinned constant as its first argument.
+func verifyPinned(P *Program, callee string) *FuncResult {
+	res := &FuncResult{Key: "pinned:" + callee}
+	var pin *Pinned
+	for i := range P.cs.pinned {
+		if P.cs.pinned[i].Callee == callee {
+			pin = &P.cs.pinned[i]
+		}
+	}
+	if pin == nil {
+		res.Err = "no pinned declaration for " + callee
+		return res
+	}
+	n := 0
+	for _, fn := range P.allFns {
+		file := P.fset.Position(fn.Pos()).Filename
+		if strings.HasSuffix(file, "_test.go") || strings.HasSuffix(file, "_verif.go") {
+			continue
+		}
+		for _, b := range fn.Blocks {
+			for _, ins := range b.Instrs {
+				c, ok := ins.(ssa.CallInstruction)
+				if !ok || c.Common().StaticCallee() == nil || c.Common().StaticCallee().String() != callee || len(c.Common().Args) == 0 {
+					continue
+				}
+				n++
+				o := &Obligation{Name: fmt.Sprintf("pinned/%s/argument-is-the-reviewed-constant@%s#%d", callee, shortKey(P, fnKey(fn)), n), Kind: "pinned", Func: fnKey(fn),
+					Src: fmt.Sprintf("%s:%d", shortFile(P.fset.Position(ins.Pos()).Filename), P.fset.Position(ins.Pos()).Line)}
+				k, isConst := c.Common().Args[0].(*ssa.Const)
+				if isConst && k.Value != nil && k.Value.Kind() == constant.String && constant.StringVal(k.Value) == pin.Value {
+					o.Status, o.Solver = "unsat", "syntactic"
+				} else {
+					o.Status = "sat"
+					got := "a non-constant value"
+					if isConst && k.Value != nil {
+						got = k.Value.ExactString()
+					}
+					o.Model = fmt.Sprintf("%s is called with %s, the reviewed constant is %q", callee, got, pin.Value)
+				}
+				res.Obls = append(res.Obls, o)
+			}
+		}
+	}
+	if n == 0 {
+		res.Obls = append(res.Obls, &Obligation{Name: "pinned/" + callee + "/called-somewhere", Kind: "pinned", Status: "sat", Model: "no call of " + callee + " found: the pinned pattern is not in use any more"})
 	}
 	return res
 }
